@@ -53,7 +53,7 @@ CONSTANT Rare
 \* (the reference to hist keeps TLC from evaluating this once as a constant)
 Sometimes == RandomElement(1..(Rare + 0 * Len(hist))) = 1
 GInit == Init /\ hist = <<>>
-GNext == \/ Live /\ \E i \in Ids : Step(i) /\ hist' = hist \o Label(i) /\ (faults' > faults => Sometimes)
+GNext == \/ Live /\ \E i \in Ids : Allowed(i) /\ Step(i) /\ hist' = hist \o Label(i) /\ (faults' > faults => Sometimes)
          \/ Live /\ Return /\ hist' = hist
          \/ Live /\ Cancel /\ Sometimes /\ hist' = Append(hist, [op |-> "cancel", host |-> "", class |-> "", n |-> "", kind |-> ""])
          \/ Live /\ Crash /\ Sometimes /\ hist' = Append(hist, [op |-> "death", host |-> "", class |-> "", n |-> "", kind |-> ""])
